@@ -70,7 +70,7 @@ def streams(tier, rng, P, only=None, cases=None):
                 x = rng.random()
                 if x < 0.6: text += rng.choice("bshmcHMLo_" + "".join(defs.keys()))
                 elif x < 0.75: text += (rng.choice(["4", "8", "16", "2"]) if text and text[-1] in "bshmcHMLo_" else " ")   # a length only directly after a letter
-                elif x < 0.85: text += "(" + rng.choice(["c", "v100", "o5", "q50"]) + ")"
+                elif x < 0.85: text += "(" + rng.choice(["c", "v100", "o5", "q50", "v(100) o3 c4", "q(50) d", "o(3) e v(90)", "TR(2) c TR(1)"]) + ")"
                 elif x < 0.92: text += rng.choice(["Sub{b}", "SUB{s}"])
                 else: text += rng.choice(["[2 b s]", "r", "l8"])
             raw.append(dict(defs=defs, text=text))
